@@ -35,13 +35,15 @@ fn programs(seed: u64) -> Vec<Vec<Sym>> {
 #[derive(Clone, Copy, Debug, PartialEq, Eq)]
 enum Runner {
     OneShot,
+    OneShotBytewise,
+    OneShotBuf3,
     StreamWhole,
     StreamBytewise,
 }
 
 pub fn run(tier: Tier) -> i32 {
     let ctx = Ctx::new("C08", "exploration", tier);
-    ctx.set_rule("E5 full grid: 12 small symbol programs (literal-ended, match-ended so that size-1 falls inside a copy, trained so that an extra symbol costs no input, empty) x end marker {absent, present} x header size field {all-ones, n, n-1, n+1, 0, 2^63, 2^64-2} x option {ReadFromHeader, ReadHeaderButUseProvided(None|Some s), UseProvided(None|Some s)} with s in {n, n-1, n+1, 0} x trailing bytes {none, 3} x {one-shot, Stream fed whole, Stream fed bytewise}. Oracle: size S in effect => (Ok => exactly S bytes, equal to the program's output prefix); S on a symbol boundary => Ok; S strictly inside a copy => Err; marker before S => Err. No size in effect => with marker and no trailing bytes Ok with the full output; trailing bytes => Err; no marker => Err. distinct_nontrivial = cells in which the size in effect disagrees with the data, or a marker is combined with a size, or no size and no marker.");
+    ctx.set_rule("E5 full grid: 12 small symbol programs (literal-ended, match-ended so that size-1 falls inside a copy, trained so that an extra symbol costs no input, empty) x end marker {absent, present} x header size field {all-ones, n, n-1, n+1, 0, 2^63, 2^64-2} x option {ReadFromHeader, ReadHeaderButUseProvided(None|Some s), UseProvided(None|Some s)} with s in {n, n-1, n+1, 0} x trailing bytes {none, 3} x {one-shot from a slice / bytewise source / 3-byte BufReader, Stream fed whole, Stream fed bytewise}. Oracle: size S in effect => (Ok => exactly S bytes, equal to the program's output prefix); S on a symbol boundary => Ok; S strictly inside a copy => Err; marker before S => Err. No size in effect => with marker and no trailing bytes Ok with the full output; trailing bytes => Err; no marker => Err. distinct_nontrivial = cells in which the size in effect disagrees with the data, or a marker is combined with a size, or no size and no marker.");
     ctx.assume("known finding K1 (marker-less acceptance at EOF with code == 0) is matched by its call-site signature only");
     let progs = programs(ctx.seed);
     let all1 = u64::MAX;
@@ -56,7 +58,7 @@ pub fn run(tier: Tier) -> i32 {
         };
         for marker in [false, true] {
             for trailing in [false, true] {
-                for runner in [Runner::OneShot, Runner::StreamWhole, Runner::StreamBytewise] {
+                for runner in [Runner::OneShot, Runner::OneShotBytewise, Runner::OneShotBuf3, Runner::StreamWhole, Runner::StreamBytewise] {
                     let mut hv = vec![all1, n, n.saturating_sub(1), n + 1, 0, 1 << 63, u64::MAX - 1];
                     hv.dedup();
                     for h in &hv {
@@ -108,6 +110,8 @@ pub fn run(tier: Tier) -> i32 {
         };
         let case = match runner {
             Runner::OneShot => Case::Dec { fmt: Fmt::Lzma, opts, input: Hex(bytes.clone()), rd: Rd::default(), sk: Sk::default() },
+            Runner::OneShotBytewise => Case::Dec { fmt: Fmt::Lzma, opts, input: Hex(bytes.clone()), rd: Rd { period: 1, ..Rd::default() }, sk: Sk::default() },
+            Runner::OneShotBuf3 => Case::Dec { fmt: Fmt::Lzma, opts, input: Hex(bytes.clone()), rd: Rd { bufreader: 3, period: 7, ..Rd::default() }, sk: Sk::default() },
             Runner::StreamWhole => Case::Stream { opts, sk: Sk::default(), ops: vec![SOp::WriteAll(Hex(bytes.clone())), SOp::Finish] },
             Runner::StreamBytewise => {
                 let mut ops: Vec<SOp> = bytes.iter().map(|b| SOp::Write(Hex(vec![*b]))).collect();
